@@ -1,16 +1,11 @@
-(* C02 — what is proved about "fcrypt = traditional crypt(3)" (Model/C02_DesSpec.crypt).
+(* C02 — "fcrypt = traditional crypt(3)" (Model/C02_DesSpec.crypt): the building blocks in one statement, and the
+   equality itself evaluated in the kernel on a list of vectors (non-vacuity of the general theorem).
 
-   Full claim (stretch goal, NOT proved here):
-     forall pw s0 s1, index_of s0 ALPHABET 0 <> None -> index_of s1 ALPHABET 0 <> None ->
-       fcrypt pw [s0; s1] = Ok (h ++ [0])  where  C02_DesSpec.crypt pw [s0; s1] = Some h.
-   Proved: the two sides take the same inputs to their cores (same 8-byte key block, same 12 salt bits), all
-   tables on the Go side are the FIPS tables under fixed bit conventions (Proofs/C02_Tables.v), the head of
-   desSetKey is PC1 and the tail of body is FP for all inputs (Proofs/C02_Perm.v), the outputs have the same
-   shape, and the equality itself on a list of vectors evaluated in the kernel. The remaining steps — that the
-   16 rotate-and-lookup rounds of desSetKey assemble the FIPS round keys in the layout dEncrypt expects, that
-   the shift-and-mask E-box with E0/E1 is the salted E, that 25 x 16 dEncrypt rounds are the Feistel rounds in
-   the rotated representation, and that the output loop is the base-64 grouping — are validated on every case
-   of every run by the 4-way correspondence Go <-> this model <-> DesSpec <-> libcrypt, not proved. *)
+   The full claim
+     forall pw salt h, C02_DesSpec.crypt pw salt = Some h -> fcrypt pw salt = Ok (h ++ [0])
+   is proved in Proofs/C02_Crypt3.v (equals_crypt3) from Proofs/C02_KeySched.v (round keys), Proofs/C02_Round.v (one
+   round), Proofs/C02_Compose.v (16 x 25 rounds) and Proofs/C02_Output.v (final permutation and output loop).
+   [equals_crypt3_blocks] below keeps the earlier conjunction: same inputs, tables = FIPS tables, PC1, FP, vectors. *)
 From Verif Require Import Base.Common Base.Sweep Gen.CryptTab Model.C02 Model.C02_DesSpec Proofs.C02_Core Proofs.C02_Tables Proofs.C02_Perm.
 
 Definition agree (v : list Z * list Z) : bool :=
@@ -49,7 +44,7 @@ Proof.
   rewrite N0, N1. repeat split; try assumption. apply keyblock_is_crypt_key.
 Qed.
 
-Lemma equals_crypt3_partial :
+Lemma equals_crypt3_blocks :
   (* same key block, same salt bits *)
   (forall pw s0 s1 i0 i1, index_of s0 ALPHABET O = Some i0 -> index_of s1 ALPHABET O = Some i1 ->
      keyblock pw = crypt_key pw /\
